@@ -19,6 +19,8 @@ CONFIGS = {
     "ubarith": ["-O1", "-g", "-fsanitize=signed-integer-overflow,float-cast-overflow", "-fsanitize-recover=all"],
     "tsan": ["-O1", "-g", "-fsanitize=thread"],
     "O0": ["-O0"], "O2": ["-O2"], "O3": ["-O3"],
+    # line/branch coverage of /repo/src by the correspondence lanes (tools/coverage.py; never used for a verdict)
+    "cov": ["-O0", "-g", "--coverage"],
 }
 
 def _sources():
@@ -42,6 +44,18 @@ def build_harness(config="asan", shared=False, main="harness.cpp", cxx="g++"):
     d = os.path.join(CACHE, "harness", key)
     exe = os.path.join(d, "harness")
     if os.path.exists(exe): return exe, None
+    os.makedirs(os.path.join(CACHE, "harness"), exist_ok=True)
+    # checks may run in parallel on a cold cache: one builder per key, the others wait for it
+    import fcntl
+    with open(os.path.join(CACHE, "harness", key + ".lock"), "w") as lk:
+        fcntl.flock(lk, fcntl.LOCK_EX)
+        try:
+            return _build_harness_locked(d, exe, flags, shared, main, cxx)
+        finally:
+            fcntl.flock(lk, fcntl.LOCK_UN)
+
+def _build_harness_locked(d, exe, flags, shared, main, cxx):
+    if os.path.exists(exe): return exe, None
     os.makedirs(d, exist_ok=True)
     inc = ["-I" + os.path.join(REPO, "include"), "-D" + GUARD]
     base = [cxx, "-std=c++11", "-w"] + flags + inc
@@ -59,7 +73,7 @@ def build_harness(config="asan", shared=False, main="harness.cpp", cxx="g++"):
         if rc != 0:
             shutil.rmtree(d, ignore_errors=True)
             return None, outp
-    link_flags = [f for f in flags if f.startswith("-fsanitize") or f.startswith("-fno-sanitize")]
+    link_flags = [f for f in flags if f.startswith("-fsanitize") or f.startswith("-fno-sanitize") or f == "--coverage"]
     if shared:
         so = os.path.join(d, "libezc3d.so")
         rc, outp = _run([cxx, "-shared"] + link_flags + objs + ["-o", so])
@@ -91,9 +105,11 @@ def driver_path():
 def prune_cache(keep=12):
     d = os.path.join(CACHE, "harness")
     if not os.path.isdir(d): return
-    ents = sorted((os.path.getmtime(os.path.join(d, e)), e) for e in os.listdir(d))
+    ents = sorted((os.path.getmtime(os.path.join(d, e)), e) for e in os.listdir(d) if os.path.isdir(os.path.join(d, e)))
     for _, e in ents[:-keep]:
         shutil.rmtree(os.path.join(d, e), ignore_errors=True)
+        try: os.remove(os.path.join(d, e + ".lock"))
+        except OSError: pass
 
 if __name__ == "__main__":
     t = time.time()
